@@ -66,6 +66,42 @@ CHECKS = {
             'common suffix of triples; broadcast_to_common_suffix (incl. paths/accessors/entries of the result), tree_broadcast_prefix, '
             'broadcast_prefix, tree_broadcast_common, broadcast_common and tree_broadcast_map (recorded calls) are judged against Lub/Owner.',
             'As C01.', '5 C09'),
+    'C10': ('model_checking',
+            'Transpose index law / involution / result structure by TLC on all TreeGen forests; real tree_transpose and transpose_map variants judged by TLC on leaf identities',
+            'TLC checks on every forest <<outer, inner>> the index law, involution, result = compose(inner, outer) and the rejections; the '
+            'real functions are run on outer-of-inner trees of fresh leaves (and back) and with recording functions; positions judged by identity.',
+            'As C01.', '5 C10'),
+    'C11': ('model_checking',
+            'Unpickle(Pickle(s), world) law by TLC over all sub-worlds of the registry; real pickle round trips in-process and in fresh interpreters replaying six registry histories, judged by TLC',
+            'TLC checks that loading yields exactly s (every field) and the freshly flattened treespec, or fails iff a custom type is unknown '
+            'to the loader, for every TreeGen tree x option x sub-world; the real blobs (all protocols) are loaded in the same process and in '
+            'six fresh interpreters; TLC judges exact state, ==, hash, repr, paths, accessors, entries, children, unflatten. Malformed states sampled.',
+            'As C01. Known finding: protocols 0/1 are unsupported by the binding (reported as KNOWN-FINDING).', '5 C11'),
+    'C12': ('model_checking',
+            'Registry.tla state machine + RegHist (all histories to a bound, TLC invariants and action properties Atomic/Isolation) + TraceRegistry: TLC validates every recorded step of real histories',
+            'TLC checks VariantAgree, MirrorExact, Atomic and Isolation on every history of register/unregister calls with argument faults and '
+            'warnings-as-errors up to the bound; each history (exhaustive short, TLC-simulated and random long ones) is replayed with fresh '
+            'classes and 72 observations after EVERY call are validated by TLC against the model state.',
+            'Trusted: TLC, Json module, the observation function of the driver (behavioural: which flatten function ran).', '5 C12'),
+    'C13': ('model_checking',
+            'Registry.tla with-block actions + RegHist (all well-nested enter/exit/raise sequences, restoration action property) + TraceRegistry validation of real context-manager histories',
+            'TLC checks that leaving a block (normally or by exception through n blocks) restores the modes found on entry, for every sequence '
+            'up to the bound; real nested context managers are driven through the same sequences and after every step the effective mode of '
+            'every namespace is observed through nine entry points, get(dict) and round trips, and validated by TLC.',
+            'As C12.', '5 C13'),
+    'C15': ('fault_enumeration',
+            'Engine.tla small-step machine (one action per segment between callbacks) with a fault index; TLC explores every fault point; each terminal state replayed on the real code; callback traces validated by TLC (TraceEngine)',
+            'For every scenario tree x {flatten, map} x fault index 0..K TLC checks FaultClean / NoMissedFault / refinement of layer D / '
+            'termination; each behaviour is replayed through 11 entry points with the fault injected at that callback: TLC validates the '
+            'callback trace, Python checks exception identity, no partial result, zero refcount delta, unchanged global state, stable '
+            'hash/repr, and that the operation works afterwards; plus a 17-operation catalogue fault-enumerated at every callback index.',
+            'Single fault per run. Reference counts are read with sys.getrefcount after gc.collect on fresh objects.', '5 C15'),
+    'C16': ('model_checking',
+            'MutGen.tla reference machine with guarded reads enumerates mutation-under-traversal scenarios and their allowed outcomes; replay in child processes under normal and ASan+UBSan builds; depth cases judged by TLC (offset binding); confusion matrix',
+            'TLC enumerates kind x traversal style x size x callback position x mutation and computes the allowed outcome; each is replayed '
+            'through 7 entry points in a child process under both builds (crash, sanitizer report or outcome outside the allowed set = '
+            'violation); depth limit +-2 for 9 kinds bound to the model by offset; every operation at the limit; 44 functions x 27 argument confusions.',
+            'The specification cannot see an out-of-bounds read that returns a plausible value: the sanitizer build and the guarded-read outcome comparison are the observers. Only the enumerated matrices are covered.', '5 C16'),
 }
 
 NOT_YET = {}
